@@ -18,7 +18,15 @@ func immutableGlobalMap(P *Program, v ssa.Value) *ssa.Global {
 		return nil
 	}
 	g, ok := u.X.(*ssa.Global)
-	if !ok || P.writtenGlobals[g] {
+	if !ok {
+		return nil
+	}
+	return immutableMapGlobal(P, g)
+}
+
+// immutableMapGlobal: g is a package-level map only written by its initialiser.
+func immutableMapGlobal(P *Program, g *ssa.Global) *ssa.Global {
+	if P.writtenGlobals[g] {
 		return nil
 	}
 	if _, ok := g.Type().Underlying().(*types.Pointer).Elem().Underlying().(*types.Map); !ok {
